@@ -174,7 +174,26 @@ def d16_3(ctx):
             hi = n.value.slice.upper
         if isinstance(n, ast.Assign) and attr_path(n.targets[0]) == "self.identity" and isinstance(n.value, ast.Call) and attr_path(n.value.func) == "ListIdentityObject.decode" and attr_path(n.value.args[0]) == "self.data":
             dec = True
-    ctx.check(lo == sp["reply_item_offset"] and hi is None and dec, ckey(c.key + "._parse_reply", "offset"), fn, "identity item decoded from raw[26:]", f"ListIdentity payload taken from raw[{lo}:]; the item starts at {sp['reply_item_offset']} (24-byte header + item count)", got=lo)
+    # upper bound: open, or item start + 4 (type id, length) + the item's 16-bit length field read from item start + 2
+    hi_ok, hi_why = hi is None, "open upper bound"
+    if hi is not None and lo is not None:
+        from .C18 import _inline_locals
+        from ..linexpr import lin as _lin
+
+        e = _inline_locals(fn, hi)
+        L = _lin(e, const_of=lambda x: ctx.folder.eval(x, c.module))
+        decs = [x for x in walk(e) if isinstance(x, ast.Call) and isinstance(x.func, ast.Attribute) and x.func.attr == "decode" and len(x.args) == 1]
+        hi_why = f"upper bound `{src(e)}`"
+        if L is not None and len(decs) == 1 and L.const == lo + 4 and len(L.terms) == 1 and list(L.terms.values()) == [1]:
+            t = ctx.folder.eval(decs[0].func.value, c.module)
+            arg = decs[0].args[0]
+            width_ok = isinstance(t, ClassRef) and ctx.folder.class_attr(t.ci, "size") == 2 and (ctx.folder.elementary_format(t.ci) or "").endswith("H")
+            sl_ok = isinstance(arg, ast.Subscript) and attr_path(arg.value) == "self.raw" and isinstance(arg.slice, ast.Slice) and ctx.folder.eval(arg.slice.lower, c.module) == lo + 2 and ctx.folder.eval(arg.slice.upper, c.module) == lo + 4
+            hi_ok = width_ok and sl_ok
+            hi_why += " = item start + 4 + UINT length field at item start + 2" if hi_ok else " does not read the item's 16-bit length field (2 bytes at item start + 2, unsigned)"
+        else:
+            hi_why += " is not item start + 4 + <item length>"
+    ctx.check(lo == sp["reply_item_offset"] and hi_ok and dec, ckey(c.key + "._parse_reply", "offset"), fn, f"identity item decoded from raw[26:] ({hi_why})", f"ListIdentity payload taken from raw[{lo}:...]; the item starts at {sp['reply_item_offset']} (24-byte header + item count) and runs to the end of the item: {hi_why}", lower=lo)
 
 
 @rule(P, "D16.4", "T-SPEC", floor=2)
